@@ -165,7 +165,8 @@ def to_mont_lemma(sess, run, funcs):
     x = ins['vec_a']
     p = z3.And(*pre, x > -67058539, x < 67058539)
     sess.discharge_obligations('to_mont closure for every |x| < 67058539', obl, p, enc='int')
-    sess.discharge('to_mont closure: |out| < 2q and out == x * 2^32 (mod q)', z3.Or(out.t >= 2 * Q, out.t <= -2 * Q, (out.t - x * (1 << 32)) % Q != 0), pre=p, enc='int', fn=name)
+    sess.discharge('to_mont closure: |out| < 2q', z3.Or(out.t >= 2 * Q, out.t <= -2 * Q), pre=p, enc='int', fn=name)
+    sess.discharge('to_mont closure: out == x * 2^32 (mod q)', (x * (1 << 32) - out.t) % Q != 0, pre=p, enc='int', fn=name)
 
 
 def mat_vec_lemma(sess, run, funcs):
